@@ -446,7 +446,12 @@ func BatchFunc[T any](
 				out.err = err
 				return
 			}
-			c <- item
+			select {
+			case c <- item:
+			case <-bgCtx.Done():
+				// Close() was called while the batcher is no longer receiving.
+				return
+			}
 		}
 	}()
 
